@@ -146,6 +146,9 @@ pub struct Ctx {
     pub rule: Mutex<String>,
     pub assumptions: Mutex<Vec<String>>,
     pub infra_error: Mutex<Option<String>>,
+    /// a single case running longer than this is a hang: exit 2 (inconclusive), or a violation where termination is the claim
+    pub hang_limit: std::time::Duration,
+    pub hang_is_violation: bool,
 }
 
 impl Ctx {
@@ -170,6 +173,8 @@ impl Ctx {
             rule: Mutex::new(String::new()),
             assumptions: Mutex::new(vec![]),
             infra_error: Mutex::new(None),
+            hang_limit: std::time::Duration::from_secs(900),
+            hang_is_violation: false,
         }
     }
 
@@ -267,16 +272,45 @@ impl Ctx {
         self.violations.lock().unwrap().push((p, reason.to_string()));
     }
 
+    /// a case did not finish within hang_limit: the process cannot continue (the stuck thread cannot be killed)
+    pub fn on_hang(&self, sub: &str, case: &Value) -> ! {
+        use std::io::Write;
+        if self.hang_is_violation {
+            self.violation(sub, case, &format!("did not terminate within {} s (work that normally takes far less than a second)", self.hang_limit.as_secs()));
+            self.write_evidence();
+            let _ = std::io::stdout().flush();
+            std::process::exit(1);
+        }
+        eprintln!("INFRA: watchdog: a case of {} {} ran for more than {} s; inconclusive", self.id, sub, self.hang_limit.as_secs());
+        let _ = std::io::stdout().flush();
+        std::process::exit(2);
+    }
+
     pub fn n_violations(&self) -> usize {
         self.violations.lock().unwrap().len()
     }
 
     /// evaluate one concrete case strictly (replay tier / regression cases): no proptest involved
-    pub fn run_fixed<C: Serialize>(&self, sub: &str, case: &C, eval: impl Fn(&C) -> Eval) {
-        let r = match catch(|| eval(case)) {
-            Ok(r) => r,
-            Err(p) => Err(Fail::new(format!("panic: {}", p))),
-        };
+    pub fn run_fixed<C: Serialize + Sync>(&self, sub: &str, case: &C, eval: impl Fn(&C) -> Eval + Sync) {
+        let done = AtomicBool::new(false);
+        let r = std::thread::scope(|sc| {
+            let done = &done;
+            sc.spawn(move || {
+                let t0 = Instant::now();
+                while !done.load(Ordering::Relaxed) {
+                    std::thread::sleep(std::time::Duration::from_millis(50));
+                    if t0.elapsed() > self.hang_limit {
+                        self.on_hang(sub, &serde_json::to_value(case).unwrap_or(Value::Null));
+                    }
+                }
+            });
+            let r = match catch(|| eval(case)) {
+                Ok(r) => r,
+                Err(p) => Err(Fail::new(format!("panic: {}", p))),
+            };
+            done.store(true, Ordering::Relaxed);
+            r
+        });
         match r {
             Ok(rep) => {
                 let rep = rep.class("fixed-regression-case");
@@ -313,13 +347,39 @@ impl Ctx {
         let per = (cases_total + shards - 1) / shards;
         let results: Mutex<Vec<(u32, V, String)>> = Mutex::new(vec![]);
         let stop = AtomicBool::new(false);
-        std::thread::scope(|sc| {
+        let current: Vec<Mutex<Option<(Instant, Value)>>> = (0..shards).map(|_| Mutex::new(None)).collect();
+        let finished = std::sync::atomic::AtomicU32::new(0);
+        let scope_res = catch(|| std::thread::scope(|sc| {
+            {
+                let current = &current;
+                let finished = &finished;
+                sc.spawn(move || {
+                    while finished.load(Ordering::Relaxed) < shards {
+                        std::thread::sleep(std::time::Duration::from_millis(200));
+                        for slot in current.iter() {
+                            let hung = { let g = slot.lock().unwrap(); g.as_ref().filter(|(t, _)| t.elapsed() > self.hang_limit).map(|(_, v)| v.clone()) };
+                            if let Some(v) = hung {
+                                self.on_hang(sub, &v);
+                            }
+                        }
+                    }
+                });
+            }
             for shard in 0..shards {
                 let results = &results;
                 let stop = &stop;
                 let strategy = &strategy;
                 let eval = &eval;
+                let slot = &current[shard as usize];
+                let finished = &finished;
                 sc.spawn(move || {
+                    struct Done<'a>(&'a std::sync::atomic::AtomicU32);
+                    impl<'a> Drop for Done<'a> {
+                        fn drop(&mut self) {
+                            self.0.fetch_add(1, Ordering::Relaxed);
+                        }
+                    }
+                    let _done = Done(finished);
                     let seed = mix(&[self.seed, hash_str(&self.id), hash_str(sub), shard as u64]);
                     let mut sb = [0u8; 32];
                     for i in 0..4 {
@@ -341,10 +401,16 @@ impl Ctx {
                             // another shard already found a violation: finish quickly
                             return Ok(());
                         }
+                        if self.hang_is_violation {
+                            *slot.lock().unwrap() = Some((Instant::now(), serde_json::to_value(&case).unwrap_or(Value::Null)));
+                        } else {
+                            *slot.lock().unwrap() = Some((Instant::now(), Value::Null));
+                        }
                         let r = match catch(|| eval(&case)) {
                             Ok(r) => r,
                             Err(p) => Err(Fail::new(format!("panic: {}", p))),
                         };
+                        *slot.lock().unwrap() = None;
                         match r {
                             Ok(rep) => {
                                 if !failed.load(Ordering::Relaxed) {
@@ -381,7 +447,10 @@ impl Ctx {
                     }
                 });
             }
-        });
+        }));
+        if let Err(p) = scope_res {
+            self.infra(format!("{} {}: a generator thread panicked: {}", self.id, sub, p));
+        }
         let mut res = results.into_inner().unwrap();
         res.sort_by_key(|r| r.0);
         if let Some((_, value, reason)) = res.into_iter().next() {
